@@ -46,7 +46,8 @@ def run(ck):
     rng = ck.rng
     ck.rule = ("case = (tag kind t2|t1s|t1d, tag memory image, message); layouts from sims/t12_tags.gen_layout "
                "(data area size, 0-3 lock/memory control TLVs reserving ranges before/inside/right after/beyond "
-               "the message, 0-7 NULL TLVs = every alignment of the NDEF TLV in the write unit, random previous "
+               "the message, 0-7 NULL TLVs = every alignment of the NDEF TLV in the write unit, lock bit counts that are not multiples of 8, "
+               "boundary layouts with exactly 2..5 / 253..261 free bytes behind the NDEF TLV, random previous "
                "contents, previous message in 1- or 3-byte length format); lengths {0..8,253..256,cap-1,cap,cap+1} "
                "+ random; non-trivial = the write was attempted on a tag that has NDEF (not the `none` outcome); "
                "distinct by hash of (kind, memory, message)")
@@ -68,10 +69,20 @@ def run(ck):
 
     nlay = 3000 if ck.thorough else 250
     runs = []
-    for i in range(nlay):
-        kind = ("t2", "t2", "t1d", "t1s")[i % 4]
-        big = ck.thorough and rng.random() < 0.15
-        lay = layout_with_old(rng, kind, big, [0, 0, 5, 200, 254, 255, 300, lambda f: f - 2, lambda f: f - 4])
+    from sims.t12_run import BOUNDARY_FREE
+    # boundary layouts: exactly 2..5 and 253..261 non-reserved bytes from the NDEF TLV to the end of the data
+    # area (both sides of every capacity / length-format threshold), for page- and block-written tags
+    targets = [(k, t) for t in BOUNDARY_FREE for k in ("t2", "t1d") if not (k == "t1d" and t < 10)]
+    targets = targets * (6 if ck.thorough else 2)
+    for i in range(nlay + len(targets)):
+        if i >= nlay:
+            kind, tf = targets[i - nlay]
+            lay = layout_with_old(rng, kind, False, [0, 5, 254, lambda f: f - 4], target_free=tf)
+            ck.count("boundary layouts (free bytes 2..5, 253..261)")
+        else:
+            kind = ("t2", "t2", "t1d", "t1s")[i % 4]
+            big = ck.thorough and rng.random() < 0.15
+            lay = layout_with_old(rng, kind, big, [0, 0, 5, 200, 254, 255, 300, lambda f: f - 2, lambda f: f - 4])
         # capacity of this layout as reported by the real code (needed to pick the boundary lengths)
         from sims.t12_run import read_line
         from sims.t12_tags import make_sim
